@@ -325,6 +325,20 @@ def rule_batchconst(ctx):
             c = dr.value
             seeded_const = isinstance(c, ast.Call) and c.args and const_int(c.args[0]) is not None
             ctx.ob("batchconst", ctor, dr.stmt, "%s: self.rng = %s" % (cls.name, unparse(c, 60)), "the batch generator is not seeded with a constant", not seeded_const)
+            # ... nor with anything all sketches of the process share (a module-level seed object): two sketches built from one
+            # shared seed replay the same draws
+            shared = None
+            if isinstance(c, ast.Call) and c.args:
+                a0 = c.args[0]
+                modnames = set(cls.module.tree_names()) if hasattr(cls.module, "tree_names") else \
+                    {t.id for st_ in cls.module.tree.body if isinstance(st_, ast.Assign) for t in st_.targets if isinstance(t, ast.Name)}
+                locals_ = {n.id for n in ast.walk(ctor.node) if isinstance(n, ast.Name) and isinstance(n.ctx, ast.Store)} | set(ctor.params)
+                # (the object itself handed over as the seed; deriving per-sketch children from it, e.g. `.spawn(1)[0]`, is fine)
+                if isinstance(a0, ast.Name) and a0.id in modnames and a0.id not in locals_:
+                    shared = a0.id
+            ctx.ob("batchconst", ctor, dr.stmt, "%s: seed of self.rng" % cls.name, "every sketch seeds its generator from entropy of its own", shared is None,
+                   "" if shared is None else "the generator is seeded from the module-level `%s`, which every sketch built in the process shares: "
+                                            "they all start with the same batch of draws" % shared)
 
 
 # ---------------------------------------------------------------------------
